@@ -15,7 +15,7 @@ import time
 
 from vlib import build as vbuild
 from vlib.batch import events_of, run_cases
-from vlib.common import Findings, Harness, log, rng_for, short, tier, unhx, write_evidence
+from vlib.common import Findings, Harness, HBIN, log, rng_for, short, tier, unhx, write_evidence
 from vlib.drive import Script, ensure_harness, sink_bytes
 
 PROP = "C12"
@@ -466,6 +466,66 @@ def _check(st, evs, B):
 _VERSION = [""]
 
 
+def secure_arm(bld, F, tot):
+    """One more process state: the calling program was started through a set-uid transition (AT_SECURE=1, real uid 12345,
+    effective uid 0) - what every set-uid program that execs something looks like.  LD_PRELOAD is ignored in that mode, so
+    the data sources are called in vitro: the build's static archive linked into the driver, a set-uid-root copy of which is
+    started from a process that has dropped to uid 12345."""
+    import shutil
+    from vlib.common import mkwork, rmwork
+    from vlib.drive import run_vdrive
+    exe0 = vbuild.build_vitro(bld, asan=False)
+    work = mkwork("c12s")
+    os.chmod(work, 0o755)
+    exe = os.path.join(work, "vdrive-setuid")
+    shutil.copy(exe0, exe)
+    os.chown(exe, 0, 0)
+    os.chmod(exe, 0o4755)
+    env = [b"T1=value of T1", b"T2=", b"HOME=/root", b"LOGNAME=lg", b"TZ=UTC", b"SECRET_TOKEN=s3cr3t"]
+    names = [("env", b"T1"), ("env", b"T2"), ("env", b"UNSETVAR"), ("env", b"SECRET_TOKEN"), ("env_all", b""), ("uid", b""), ("euid", b""), ("gid", b""), ("egid", b""),
+             ("username", b""), ("eusername", b""), ("pid", b""), ("ppid", b""), ("cwd", b"")]
+    s = Script()
+    s.raw("nosinks")
+    s.fork(1)
+    s.raw("envset " + Script.vec(env))
+    s.raw("vinit 0 %s %s %s" % (Script.elem(b"/bin/secure"), Script.vec([b"secure"]), Script.vec([b"E=1"])))
+    s.raw("oracle 1")
+    for i, (n, a) in enumerate(names):
+        s.raw("vds %d %s %s 65536" % (100 + i, Script.elem(n.encode()), Script.elem(a)))
+    s.raw("vcleanup 0")
+    s.endfork()
+    try:
+        res = run_vdrive(bld, s.text(), os.path.join(work, "run"), exe=exe, preload=[os.path.join(HBIN, "libvrec.so")], timeout=120, run_as=(12345, 12345), mtx=False)
+        start = next((e for e in res.events if e["ev"] == "START"), None)
+        O = next((e for e in res.events if e["ev"] == "ORACLE"), None)
+        if not start or not O or not start.get("at_secure") or O["ruid"] != 12345 or O["euid"] != 0:
+            raise Harness("secure-execution state could not be constructed: START=%s oracle ids=%s stderr=%s" % (start, O and (O["ruid"], O["euid"]), res.stderr[-300:]))
+        vs = {e["id"] - 100: e for e in res.events if e["ev"] == "V"}
+        getenv = dict(x.split(b"=", 1) for x in env)
+        for i, (n, a) in enumerate(names):
+            v = vs.get(i)
+            wit = dict(state="AT_SECURE=1 ruid=12345 euid=0", datasource=n, arg=a.decode())
+            if v is None:
+                F.violation("C12:secure-exec:call-did-not-return", "%%{%s:%s} did not return in a set-uid started process" % (n, a.decode()), wit)
+                break
+            got = bytes.fromhex(v["out"])
+            if n == "env":
+                exp = {getenv.get(a, b"(undefined)")}
+            elif n == "env_all":
+                exp = {b",".join(env)}
+            else:
+                exp = {"uid": {b"12345"}, "euid": {b"0"}, "gid": {b"12345"}, "egid": {b"%d" % O["egid"]}, "pid": {b"%d" % O["pid"]}, "ppid": {b"%d" % O["ppid"]},
+                       "cwd": {unhx(O["cwd"])} if "cwd" in O else None, "username": None, "eusername": {b"root"}}.get(n)
+            if exp is None:
+                continue
+            tot["secure_exec_fields"] = tot.get("secure_exec_fields", 0) + 1
+            if got not in exp:
+                F.violation("C12:%s:secure-exec" % n, "%%{%s%s} = %s in a process started through a set-uid transition (AT_SECURE=1, ruid 12345, euid 0), the process state says %s" % (
+                    n, (":" + a.decode()) if a else "", short(got, 80), [short(x, 80) for x in exp]), dict(wit, got=got.decode("latin-1")[:300]))
+    finally:
+        rmwork(work)
+
+
 def main():
     t0 = time.time()
     tr = tier()
@@ -476,7 +536,8 @@ def main():
     _VERSION[0] = m.group(1) if m else "?"
     states = make_states(tr)
     F, tot = run_cases(PROP, bld, states, script_fn, _check, batch_size=25, keep=False)
-    if (tot.get("fields", 0) == 0 or tot.get("ok:tty", 0) == 0 or tot.get("ok:username", 0) == 0) and F.n_unlisted() == 0:
+    secure_arm(bld, F, tot)
+    if (tot.get("fields", 0) == 0 or tot.get("ok:tty", 0) == 0 or tot.get("ok:username", 0) == 0 or tot.get("secure_exec_fields", 0) == 0) and F.n_unlisted() == 0:
         raise Harness("observed too little: %s" % tot)
     if tot.get("record_count_mismatch", 0):
         raise Harness("could not attribute records to calls in %d batches" % tot["record_count_mismatch"])
